@@ -28,6 +28,8 @@ EXPLANATION = (
     "tried on the original data.  Declined: that the right branch is taken for a given file, that the "
     "corrected orbitals are orthonormal, the numerical content of the vendor factors."
 )
+TECHNIQUE += '; CFG must-pass of the per-shell correction'
+EXPLANATION += ' Added: (R7) in every basis-correction helper each iteration of the per-shell loop reaches the statement that corrects the coefficients (no continue/break path around it).'
 TRUSTED = ["CPython ast parser", "copy.deepcopy / attrs.evolve return new objects"]
 
 
